@@ -467,6 +467,8 @@ func (s *Server) serveConn(conn net.Conn) {
 				} else { // Oneway and only call the plugins
 					s.Plugins.DoPreWriteResponse(ctx, req, nil, err)
 				}
+				// the rejected request stays counted until its error response has been written
+				atomic.AddInt32(&s.handlerMsgNum, -1)
 				continue
 			} else { // wrong data
 				log.Warnf("rpcx: failed to read request: %v", err)
@@ -677,7 +679,9 @@ func (s *Server) readRequest(ctx context.Context, r io.Reader) (req *protocol.Me
 	perr := s.Plugins.DoPostReadRequest(ctx, req, err)
 	if err == nil {
 		err = perr
-		if err != nil { // rejected by a plugin: it will not be processed
+		// rejected by a plugin: it will not be processed (a rate-limited request is
+		// answered by serveConn, which stops counting it after the answer)
+		if err != nil && !errors.Is(err, ErrReqReachLimit) {
 			atomic.AddInt32(&s.handlerMsgNum, -1)
 		}
 	}
